@@ -30,6 +30,7 @@ import (
 	"github.com/bitcoin-sv/block-headers-service/notification"
 	"github.com/bitcoin-sv/block-headers-service/repository"
 	"github.com/bitcoin-sv/block-headers-service/service"
+	"github.com/bitcoin-sv/block-headers-service/transports/http/client"
 	"github.com/bitcoin-sv/block-headers-service/transports/websocket"
 	"github.com/bitcoin-sv/block-headers-service/verifharness/deco"
 	"github.com/bitcoin-sv/block-headers-service/verifharness/ev"
@@ -323,7 +324,7 @@ type faultyWebhooks struct {
 }
 
 func (f *faultyWebhooks) UpdateWebhook(w *notification.Webhook) error {
-	if f.e.failHookUpdate.Load() && w.URL != urlHookFail && f.e.failHookUpdate.CompareAndSwap(true, false) {
+	if f.e.failHookUpdate.Load() && w.URL != f.e.urls[chHookFail] && f.e.failHookUpdate.CompareAndSwap(true, false) {
 		f.e.hookUpdateFailures.Add(1)
 		return errors.New("verif: injected webhook bookkeeping failure (database is locked)")
 	}
@@ -414,16 +415,93 @@ type env struct {
 	hookUpdateFailures     atomic.Int64 // how many were injected
 	base                   int          // goroutine baseline
 	live                   *liveWS
+	// concurrent delivery of one header by two submitters: while pairHash is set, the first look-up of that hash waits
+	// (bounded) for the second submitter to reach its own look-up, so that both decide "unknown" when nothing orders them
+	// production-client mode: the webhooks are real HTTP servers, called by transports/http/client
+	urls        map[string]string // channel -> registered URL
+	servers     []*httptest.Server
+	pairMu      sync.Mutex
+	pairHash    string
+	pairArrived int
+	pairWaiting bool
+	pairBoth    chan struct{}
+	pairMet     atomic.Int64
 }
 
-func newEnv(r *ev.Run, live bool) (*env, error) {
+// rendezvous is called from the repository decorator on GetHeaderByHash.
+func (e *env) rendezvous(hash string) {
+	e.pairMu.Lock()
+	if e.pairHash == "" || e.pairHash != hash || e.pairArrived >= 2 {
+		e.pairMu.Unlock()
+		return
+	}
+	e.pairArrived++
+	both := e.pairBoth
+	if e.pairArrived == 2 {
+		if e.pairWaiting { // the first submitter has not gone past its look-up yet
+			close(both)
+			e.pairMet.Add(1)
+		}
+		e.pairMu.Unlock()
+		return
+	}
+	e.pairWaiting = true
+	e.pairMu.Unlock()
+	select {
+	case <-both:
+	case <-time.After(1500 * time.Microsecond): // the other submitter is held back by the service: go on alone
+	}
+	e.pairMu.Lock()
+	e.pairWaiting = false
+	e.pairMu.Unlock()
+}
+
+// addPair submits h from two goroutines at once and returns both answers.
+func (e *env) addPair(h refmodel.Hdr) [2]rig.AddResult {
+	e.pairMu.Lock()
+	e.pairHash, e.pairArrived, e.pairWaiting, e.pairBoth = h.HashOf().String(), 0, false, make(chan struct{})
+	e.pairMu.Unlock()
+	var out [2]rig.AddResult
+	var wg sync.WaitGroup
+	start := make(chan struct{})
+	for k := 0; k < 2; k++ {
+		k := k
+		wg.Add(1)
+		go func() {
+			defer wg.Done()
+			<-start
+			out[k] = e.st.Add(h)
+		}()
+	}
+	close(start)
+	wg.Wait()
+	e.pairMu.Lock()
+	e.pairHash = ""
+	e.pairMu.Unlock()
+	return out
+}
+
+func newEnv(r *ev.Run, live bool, prod ...bool) (*env, error) {
 	e := &env{r: r, b: &board{beh: map[string]string{}, release: make(chan struct{})}, names: []string{"rec1", "rec2", "rec3"}}
+	e.urls = map[string]string{chHookOK: urlHookOK, chHookFail: urlHookFail, chHookOK2: urlHookOK2, chHookOK3: urlHookOK3}
+	var target notification.WebhookTargetClient = &recClient{b: e.b}
+	if len(prod) > 0 && prod[0] {
+		e.startHookServers()
+		target = client.NewWebhookTargetClient()
+	}
 	var liveErr error
 	name := "c11.db"
 	if live {
 		name = "c11-live.db"
 	}
-	hooks := &deco.Hooks{Before: func(op string, write bool, _ string) error {
+	if len(e.servers) > 0 {
+		name = "c11-prod.db"
+	}
+	hooks := &deco.Hooks{Before: func(op string, write bool, arg string) error {
+		if op == "GetHeaderByHash" {
+			e.rendezvous(arg)
+			return nil
+		}
 		if op == "AddHeaderToDatabase" && e.failInsert {
 			e.failInsert, e.injected = false, "insert"
 			return errors.New("verif: injected insert failure")
@@ -446,7 +524,7 @@ func newEnv(r *ev.Run, live bool) (*env, error) {
 			lg := *s.Logger
 			// same wiring as cmd/main.go: webhooks service + websocket channel on the real Notifier,
 			// plus the recording channels
-			s.Webhooks = notification.NewWebhooksService(e.repos.Webhooks, &recClient{b: e.b}, &lg, c.Webhook)
+			s.Webhooks = notification.NewWebhooksService(e.repos.Webhooks, target, &lg, c.Webhook)
 			s.Notifier.AddChannel(&recChan{name: e.names[0], b: e.b})
 			s.Notifier.AddChannel(s.Webhooks)
 			s.Notifier.AddChannel(&recChan{name: e.names[1], b: e.b})
@@ -487,7 +565,49 @@ CREATE TRIGGER IF NOT EXISTS verif_c11_ins BEFORE INSERT ON headers WHEN (SELECT
 	return e, nil
 }
 
+// startHookServers starts one real HTTP server per webhook. The healthy ones answer 200 (the third one slowly); the failing
+// one takes the request in and then, in turn, answers 500, drops the connection without answering, answers 503.
+func (e *env) startHookServers() {
+	var failSeq atomic.Int64
+	for _, ch := range []string{chHookOK, chHookFail, chHookOK2, chHookOK3} {
+		ch := ch
+		srv := httptest.NewUnstartedServer(http.HandlerFunc(func(w http.ResponseWriter, q *http.Request) {
+			body, _ := io.ReadAll(q.Body)
+			e.b.rec.add(delivery{Channel: ch, Payload: body, Extra: q.Method})
+			switch ch {
+			case chHookOK3:
+				time.Sleep(300 * time.Microsecond)
+			case chHookFail:
+				switch failSeq.Add(1) % 3 {
+				case 0:
+					http.Error(w, "verif: injected webhook failure", http.StatusInternalServerError)
+				case 1:
+					if hj, ok := w.(http.Hijacker); ok {
+						if c, _, err := hj.Hijack(); err == nil {
+							e.r.Count("webhook_connections_dropped_after_the_request_was_read", 1)
+							_ = c.Close()
+							return
+						}
+					}
+					http.Error(w, "verif: hijack unavailable", http.StatusBadGateway)
+				default:
+					http.Error(w, "verif: injected webhook failure", http.StatusServiceUnavailable)
+				}
+				return
+			}
+			w.WriteHeader(http.StatusOK)
+		}))
+		srv.Config.SetKeepAlivesEnabled(false) // no idle connections: the goroutine count goes back to the baseline
+		srv.Start()
+		e.servers = append(e.servers, srv)
+		e.urls[ch] = srv.URL + "/events"
+	}
+}
+
 func (e *env) close() {
+	for _, s := range e.servers {
+		s.Close()
+	}
 	if e.live != nil {
 		e.live.close()
 	}
@@ -576,8 +696,8 @@ func (e *env) runHistory(caseID string, rng *rand.Rand, hist gen.History, pFail 
 		r.Violate("harness|reset", err.Error(), caseID, nil)
 		return
 	}
-	for _, u := range []string{urlHookOK, urlHookFail, urlHookOK2, urlHookOK3} {
-		if _, err := e.st.Svc.Webhooks.CreateWebhook("BEARER", "", "c11-token", u); err != nil {
+	for _, ch := range []string{chHookOK, chHookFail, chHookOK2, chHookOK3} {
+		if _, err := e.st.Svc.Webhooks.CreateWebhook("BEARER", "", "c11-token", e.urls[ch]); err != nil {
 			r.Violate("harness|create-webhook", err.Error(), caseID, nil)
 			return
 		}
@@ -650,7 +770,31 @@ func (e *env) runHistory(caseID string, rng *rand.Rand, hist gen.History, pFail 
 		if sqlFail {
 			_, _ = e.st.DB.Exec(`UPDATE verif_c11 SET armed = 1`)
 		}
-		res := e.st.Add(h)
+		var res rig.AddResult
+		if !sqlFail && !e.failInsert && !e.failUpdate && rng.Intn(6) == 0 {
+			// two peers deliver the same header at the same moment: one submission is the stored one, the other is
+			// recorded below as a submission of its own
+			pr := e.addPair(h)
+			r.Count("concurrent_double_submissions", 1)
+			res = pr[0]
+			other := pr[1]
+			if other.Code() == "stored" && res.Code() != "stored" {
+				res, other = other, res
+			}
+			os := submission{Idx: i, Hash: h.HashOf().String(), Code: other.Code(), Parked: b.parked.Load()}
+			if os.Code == "stored" {
+				stored[os.Hash]++
+			} else {
+				sit := situation(os.Code, "")
+				if _, ok := notStored[os.Hash]; !ok {
+					notStored[os.Hash] = sit
+				}
+				r.Count("submissions_"+sit, 1)
+			}
+			subs = append(subs, os)
+		} else {
+			res = e.st.Add(h)
+		}
 		if sqlFail {
 			_, _ = e.st.DB.Exec(`UPDATE verif_c11 SET armed = 0`)
 			e.injected = "insert"
@@ -690,6 +834,7 @@ func (e *env) runHistory(caseID string, rng *rand.Rand, hist gen.History, pFail 
 		r.Count("webhook_bookkeeping_failures_injected", e.hookUpdateFailures.Swap(0))
 	}()
 	r.Count("submissions", int64(len(subs)))
+	r.Count("double_submissions_where_both_looked_up_before_either_inserted", e.pairMet.Swap(0))
 	r.Count("stored_headers", int64(nStored))
 	r.Count("adds_returned_while_a_delivery_was_parked", int64(returnedWhileBlocked))
 
@@ -703,7 +848,7 @@ func (e *env) runHistory(caseID string, rng *rand.Rand, hist gen.History, pFail 
 	wantAll := func(chs []string) func() bool {
 		return func() bool {
 			for _, c := range chs {
-				if b.rec.count(c) < nStored {
+				if b.rec.count(c) < len(stored) {
 					return false
 				}
 			}
@@ -813,7 +958,12 @@ func (e *env) runHistory(caseID string, rng *rand.Rand, hist gen.History, pFail 
 	}
 	// exactly once per stored header, field equality
 	type miss struct{ want, got int }
-	for hash, want := range stored {
+	for hash, reported := range stored {
+		// a header is stored once, however many submissions of it were answered "stored"
+		want := 1
+		if reported > 1 {
+			violate("stored-reported-more-than-once", fmt.Sprintf("%d submissions of header %s were all answered as stored (one row)", reported, hash), map[string]any{"hash": hash})
+		}
 		perCh := map[string]miss{}
 		for _, ch := range channels {
 			evs := got[key{ch, hash}]
@@ -942,12 +1092,13 @@ func clip(s string) string {
 }
 
 func body(r *ev.Run) {
-	r.Rule("histories = seeded random histories of the C01 generator (forks, orphans, late parents, duplicates, forbidden hashes, all work classes) with store failures injected at repository.Headers.AddHeaderToDatabase (and UpdateState in every 6th history) with probability {0, 0.05, 0.15} per submission; channel set on the real Notifier = 3 recording channels whose behaviours per history are 3 of {ok, error, slow, blocked until released after ingestion} in random order + real websocket channel over a recording publisher that fails every n-th publish (n in {never,2,3}) + real WebhooksService over the SQL repository with a healthy and an always-failing webhook. evaluations = histories; distinct = distinct (behaviour assignment, history shape); non-trivial = history with a fork, orphan, duplicate or a non-stored submission.")
+	r.Rule("histories = seeded random histories of the C01 generator (forks, orphans, late parents, duplicates, forbidden hashes, all work classes) with store failures injected at repository.Headers.AddHeaderToDatabase (and UpdateState in every 6th history) with probability {0, 0.05, 0.15} per submission; channel set on the real Notifier = 3 recording channels whose behaviours per history are 3 of {ok, error, slow, blocked until released after ingestion} in random order + real websocket channel over a recording publisher that fails every n-th publish (n in {never,2,3}) + real WebhooksService over the SQL repository with three healthy and an always-failing webhook; a share of the histories runs with the production webhook client (transports/http/client) posting to real HTTP servers, the failing one answering 500 / dropping the connection after reading the request / answering 503 in turn; every 6th fault-free submission is made by two goroutines at once (two peers delivering the same header; the first duplicate look-up waits up to 1.5 ms for the second to arrive). evaluations = histories; distinct = distinct (behaviour assignment, history shape); non-trivial = history with a fork, orphan, duplicate or a non-stored submission.")
 	r.Assume("'stored' = Chains.Add returned without error", "the stored header = its headers row (immutable columns at the end of the history, header_state right after Add returned)",
 		"logical quiescence = goroutine count back at the pre-history baseline plus the deliveries parked in blocked channels (or, if some unrelated long-lived goroutine appeared, every expected delivery recorded and a stable goroutine count)",
 		"the always-failing webhook may be deactivated by the service: only 'at most one call per stored header, none otherwise' is required of it", "SQLite only; built with -race")
 	r.Require("stored_headers", 1000)
 	r.Require("submissions_duplicate", 20)
+	r.Require("concurrent_double_submissions", 100)
 	r.Require("submissions_forbidden", 5)
 	r.Require("submissions_store-failed", 20)
 	r.Require("histories_with_a_blocked_channel", 10)
@@ -957,6 +1108,8 @@ func body(r *ev.Run) {
 	r.Require("deliveries_webhook", 1000)
 	r.Require("websocket_publish_failures_injected", 50)
 	r.Require("deliveries_"+chWSClient, 100)
+	r.Require("production_client_histories", 10)
+	r.Require("webhook_connections_dropped_after_the_request_was_read", 20)
 	mb.ForbiddenHeaders()
 	var e, le *env
 	defer func() {
@@ -996,6 +1149,30 @@ func body(r *ev.Run) {
 			}
 			rng, hist, pFail := histFor(caseID, r.Pick(110, 160))
 			e.runHistory(caseID, rng, hist, pFail, i%6 == 5)
+		})
+	}
+	// the same with the production webhook client (transports/http/client) calling real HTTP servers
+	var pe *env
+	defer func() {
+		if pe != nil {
+			pe.close()
+		}
+	}()
+	nProd := r.Pick(16, 320)
+	for i := 0; i < nProd; i++ {
+		caseID := fmt.Sprintf("prod/%d", i)
+		r.Do(caseID, func() {
+			if pe == nil {
+				var err error
+				if pe, err = newEnv(r, false, true); err != nil {
+					pe = nil
+					r.Inconclusive(caseID, "webhook servers could not be set up: "+err.Error())
+					return
+				}
+			}
+			rng, hist, pFail := histFor(caseID, 60)
+			pe.runHistory(caseID, rng, hist, pFail, false)
+			r.Count("production_client_histories", 1)
 		})
 	}
 	// the same with a live websocket node and a real centrifuge client subscribed to "headers"
